@@ -112,7 +112,8 @@ pub open spec fn authorized(c: Config, w: int, sender: Seq<char>) -> bool {
 @ensures C05.authorize_exact
     r is Ok ==> authorized(*self, querier.world(), sender@)
 @ensures C05.authorize_never_refuses_the_entitled C15
-    (match self.executor { None => true, Some(Executor::Only(a)) => a@ == sender@, Some(Executor::Member) => false }) ==> r is Ok
+    (match self.executor { None => true, Some(Executor::Only(a)) => a@ == sender@,
+        Some(Executor::Member) => raw_query_ok(querier.world(), self.group_addr.0@) && grp_member_now(querier.world(), self.group_addr.0@, sender@) is Some }) ==> r is Ok
 @end
 
 // --------------------------------------------------------------------- vote
@@ -201,6 +202,8 @@ pub proof fn lemma_vote_preserves(s: Raw, id: u64, a: Seq<char>, vote: Vote, wt:
 @fn contracts/cw3-flex-multisig/src/contract.rs execute_vote [closures: 1]
 @requires
     inv(old(deps.storage).view())
+@ensures C06.vote_refused_leaves_no_trace C03 C05
+    r is Err ==> final(deps.storage).view() == old(deps.storage).view()
 @ensures C06.vote_exact C03 C05
     r is Ok ==> step_vote(old(deps.storage).view(), final(deps.storage).view(), deps.querier.world(), info.sender@, &env.block, proposal_id, vote)
 @ensures C03.vote_inv C05 C06
@@ -211,11 +214,31 @@ pub proof fn lemma_vote_preserves(s: Raw, id: u64, a: Seq<char>, vote: Vote, wt:
     r is Ok && refundable(prop_of(old(deps.storage).view(), proposal_id)->Some_0.deposit)
         ==> prop_of(final(deps.storage).view(), proposal_id)->Some_0.status != Status::Rejected
             || prop_of(old(deps.storage).view(), proposal_id)->Some_0.status == Status::Rejected
+@ensures C06.an_entitled_snapshot_voter_is_never_refused C03
+    vote_allowed(old(deps.storage).view(), proposal_id, info.sender@, &env.block)
+        && (forall|st: String| st@ == info.sender@ ==> (#[trigger] grp_member_at(deps.querier.world(), group_of(old(deps.storage).view()), st, Some(prop_of(old(deps.storage).view(), proposal_id)->Some_0.start_height))) is Some
+            && grp_member_at(deps.querier.world(), group_of(old(deps.storage).view()), st, Some(prop_of(old(deps.storage).view(), proposal_id)->Some_0.start_height))->Some_0 is Some
+            && grp_member_at(deps.querier.world(), group_of(old(deps.storage).view()), st, Some(prop_of(old(deps.storage).view(), proposal_id)->Some_0.start_height))->Some_0->Some_0 >= 1)
+        ==> r is Ok
 @closure 1 C06.vote_once
     (res: Result<Ballot, ContractError>)
-    ensures res is Ok ==> bal is None && res->Ok_0 == (Ballot { weight: vote_power, vote })
+    ensures res is Ok ==> bal is None && res->Ok_0 == (Ballot { weight: vote_power, vote }), bal is None ==> res is Ok
 @prefix
     broadcast use cw3_axioms, opt_conv;
+@insert_before "~is_voting_member(" 1
+    proof {
+        if prop_of(old(deps.storage).view(), proposal_id) is Some {
+            let h0 = prop_of(old(deps.storage).view(), proposal_id)->Some_0.start_height;
+            let g0 = group_of(old(deps.storage).view());
+            let w0 = deps.querier.world();
+            assert(<u64 as IntoSpec<Option<u64>>>::into_spec(h0) == Some(h0));
+            if forall|st: String| st@ == info.sender@ ==> (#[trigger] grp_member_at(w0, g0, st, Some(h0))) is Some {
+                assert forall|st: String| st@ == info.sender@ implies (#[trigger] grp_member_at(w0, g0, st, <u64 as IntoSpec<Option<u64>>>::into_spec(h0))) is Some by {
+                    assert(grp_member_at(w0, g0, st, Some(h0)) is Some);
+                }
+            }
+        }
+    }
 @insert_before "BALLOTS.update(" 1
     proof {
         assert(vote_power >= 1);
@@ -454,6 +477,8 @@ pub open spec fn close_msgs_ok(msgs: Seq<SubMsg<Empty>>, p: Proposal) -> bool {
 @fn contracts/cw3-flex-multisig/src/contract.rs execute_execute
 @requires
     inv(old(deps.storage).view())
+@ensures C05.execute_refused_leaves_no_trace C03 C15
+    r is Err ==> final(deps.storage).view() == old(deps.storage).view()
 @ensures C05.execute_only_passed_and_authorised C03 C15
     r is Ok ==> step_execute(old(deps.storage).view(), final(deps.storage).view(), deps.querier.world(), info.sender@, &env.block, proposal_id)
 @ensures C05.execute_dispatches_exactly C15
@@ -462,7 +487,8 @@ pub open spec fn close_msgs_ok(msgs: Seq<SubMsg<Empty>>, p: Proposal) -> bool {
     r is Ok ==> inv(final(deps.storage).view())
 @ensures C15.execute_goes_through_on_passed_proposals C05
     prop_of(old(deps.storage).view(), proposal_id) is Some && spec_status(prop_of(old(deps.storage).view(), proposal_id)->Some_0, &env.block) == Status::Passed
-        && (match cfg_of(old(deps.storage).view())->Some_0.executor { None => true, Some(Executor::Only(a)) => a@ == info.sender@, Some(Executor::Member) => false })
+        && (match cfg_of(old(deps.storage).view())->Some_0.executor { None => true, Some(Executor::Only(a)) => a@ == info.sender@,
+            Some(Executor::Member) => raw_query_ok(deps.querier.world(), group_of(old(deps.storage).view())) && grp_member_now(deps.querier.world(), group_of(old(deps.storage).view()), info.sender@) is Some })
         ==> r is Ok
 @prefix
     broadcast use cw3_axioms, msg_conv;
@@ -477,6 +503,8 @@ pub open spec fn close_msgs_ok(msgs: Seq<SubMsg<Empty>>, p: Proposal) -> bool {
 @fn contracts/cw3-flex-multisig/src/contract.rs execute_close
 @requires
     inv(old(deps.storage).view())
+@ensures C05.close_refused_leaves_no_trace C03 C15
+    r is Err ==> final(deps.storage).view() == old(deps.storage).view()
 @ensures C05.close_only_expired_unpassed C03 C15
     r is Ok ==> step_close(old(deps.storage).view(), final(deps.storage).view(), &env.block, proposal_id)
 @ensures C15.close_refund_iff_enabled C05
